@@ -85,6 +85,7 @@ class Runner
         std::size_t cap{0};
         std::size_t budget{0};
         bool budget_known{true};  // false after copy / element-wise move: only what is stored is known to fit
+        bool exact{true};         // the data block was sized for exactly this capacity (construction / reserve)
         std::array<std::size_t, (NF ? NF : 1)> fixed{};
         int arena{0};
     };
@@ -116,6 +117,15 @@ class Runner
     // per-case label flags
     bool had_shrink_op{false};       // erase/pop/clear happened on a vector holding elements of unequal byte extent
     bool nt_flag{false};
+    std::size_t relocations{0};      // elements relocated so far in this case
+    bool realloc_on_varying{false};
+    std::set<int> arenas_used;
+    unsigned effective_reserves{0};
+    unsigned stable_checks{0};
+    bool erase_middle_seen{false};
+    bool emptied_by_history{false};
+    bool moved_from_reused{false};
+    bool emplace_after_empty{false};
 
     Runner(int p, const Program& pr, Stats& s, unsigned g) : prop(p), prog(pr), st(s), guards(g) {}
 
@@ -461,16 +471,41 @@ class Runner
     {
         std::array<std::size_t, (NF ? NF : 1)> f{};
         for (std::size_t i = 0; i < NF; ++i) f[i] = ((d >> (3 * i)) & 7) % 5;
+        // D16: elements of zero bytes (a list of FixedSize parameters only, all with size 0) are outside the domain
+        if constexpr (NF == N && NF > 0)
+        {
+            bool all_zero = true;
+            for (std::size_t i = 0; i < NF; ++i) all_zero = all_zero && f[i] == 0;
+            if (all_zero) f[0] = 1;
+        }
         return f;
     }
 
     // make sure slot s holds a usable (alive, not moved-from) vector; construct one from the op's fields otherwise
     bool usable(int s) const { return vs[s].m.alive && !vs[s].m.moved_from; }
+    bool constructed_this_op{false};
     void ensure(int s, const Op& op)
     {
         if (usable(s)) return;
         ++st.ops_repaired;
+        constructed_this_op = true;
         construct_slot(s, (op.b % 5) + 1, op.c % 64, fixed_from(op.d), static_cast<int>(op.a / 4 % 3));
+    }
+
+    // D16: a list of FixedSize parameters only whose sizes are all 0 has elements of zero bytes
+    static bool zero_byte_elements(const MVec& m)
+    {
+        if constexpr (NF == N && NF > 0)
+        {
+            for (std::size_t i = 0; i < NF; ++i)
+                if (m.fixed[i] != 0) return false;
+            return true;
+        }
+        else
+        {
+            (void)m;
+            return false;
+        }
     }
 
     std::size_t remaining_budget(const MVec& m) const
@@ -490,6 +525,7 @@ class Runner
         const std::size_t budget = op.c % 257;
         construct_slot(s, cap, budget, fixed_from(op.d), static_cast<int>((op.a / 4) % 3));
         if (cap == 0) st.label("new_cap0");
+        arenas_used.insert(vs[s].m.arena);
     }
 
     void op_default(const Op& op)
@@ -523,7 +559,7 @@ class Runner
         ensure(s, op);
         MVec& m = vs[s].m;
         Vec& v = *vs[s].v;
-        if (m.el.size() >= m.cap || (NV > 0 && !m.budget_known))
+        if (m.el.size() >= m.cap || (NV > 0 && !m.budget_known) || zero_byte_elements(m))
         {
             ++st.ops_skipped;
             st.label("emplace_skipped_full");
@@ -531,7 +567,8 @@ class Runner
         }
         const bool small_dom = (op.d >> 4) & 1;
         MElem e = make_model_elem(m, op.b, op.c, small_dom, remaining_budget(m));
-        if (had_shrink_op) nt_flag = true;
+        if (had_shrink_op && prop == 1) nt_flag = true;
+        if (m.el.empty() && (emptied_by_history || m.cap == 0 || NV > 0) && prop == 18) nt_flag = true;
         do_emplace_model(v, e, op.d);
         m.el.push_back(std::move(e));
     }
@@ -542,7 +579,7 @@ class Runner
         ensure(s, op);
         MVec& m = vs[s].m;
         Vec& v = *vs[s].v;
-        if (NV > 0 && !m.budget_known)
+        if ((NV > 0 && !m.budget_known) || zero_byte_elements(m))
         {
             ++st.ops_skipped;
             return;
@@ -578,6 +615,7 @@ class Runner
         note_shrink(vs[s].m);
         vs[s].v->pop_back();
         vs[s].m.el.pop_back();
+        if (vs[s].m.el.empty()) emptied_by_history = true;
     }
 
     void check_erase_result(int s, const typename Vec::iterator& it, std::size_t first)
@@ -608,9 +646,15 @@ class Runner
         Vec& v = *vs[s].v;
         const std::size_t i = op.b % m.el.size();
         note_shrink(m);
-        if (i + 1 < m.el.size()) st.label("erase_middle");
+        if (i + 1 < m.el.size())
+        {
+            st.label("erase_middle");
+            relocations += m.el.size() - i - 1;
+            if (m.el.size() >= 3) erase_middle_seen = true;
+        }
         auto it = (op.c & 1) ? v.erase(v.cbegin() + static_cast<std::ptrdiff_t>(i)) : v.erase(v.begin() + static_cast<std::ptrdiff_t>(i));
         m.el.erase(m.el.begin() + static_cast<std::ptrdiff_t>(i));
+        if (m.el.empty()) emptied_by_history = true;
         check_erase_result(s, it, i);
     }
 
@@ -629,10 +673,16 @@ class Runner
         const std::size_t last = first + op.c % (n - first + 1);
         if (first == last) st.label("erase_empty_range");
         if (last == n && first < last) st.label("erase_tail");
+        if (last < n && first < last)
+        {
+            relocations += n - last;
+            if (n >= 3) erase_middle_seen = true;
+        }
         if (first == 0 && last == n && n > 0) st.label("erase_all");
         note_shrink(m);
         auto it = v.erase(v.begin() + static_cast<std::ptrdiff_t>(first), v.begin() + static_cast<std::ptrdiff_t>(last));
         m.el.erase(m.el.begin() + static_cast<std::ptrdiff_t>(first), m.el.begin() + static_cast<std::ptrdiff_t>(last));
+        if (m.el.empty() && first < last) emptied_by_history = true;
         check_erase_result(s, it, first);
     }
 
@@ -646,6 +696,7 @@ class Runner
         }
         if (vs[s].m.moved_from) st.label("clear_moved_from");
         note_shrink(vs[s].m);
+        if (!vs[s].m.el.empty()) emptied_by_history = true;
         vs[s].v->clear();
         vs[s].m.el.clear();
         if (vs[s].m.moved_from)
@@ -687,6 +738,11 @@ class Runner
             m.cap = n;
             m.budget = b;
             m.budget_known = true;
+            m.exact = true;
+            relocations += m.el.size();
+            ++effective_reserves;
+            if (effective_reserves >= 2 && prop == 10) nt_flag = true;
+            if (NV > 0) realloc_on_varying = true;
         }
     }
 
@@ -912,7 +968,7 @@ class Runner
         }
         if constexpr (NV == 0)
         {
-            if (n == vs[s].m.cap)
+            if (n == vs[s].m.cap && vs[s].m.exact)
             {
                 const std::size_t used = cursor - reinterpret_cast<std::uintptr_t>(v.data_begin());
                 VF_REQUIRE(align_up(used, AMAX) == v.memory_consumption(), "full_vector_footprint", "full vector uses " + std::to_string(used) + " bytes (" + std::to_string(align_up(used, AMAX)) + " rounded) but memory_consumption()==" + std::to_string(v.memory_consumption()));
@@ -940,7 +996,17 @@ class Runner
             collect_tracked_elems(out);
         }
     }
-    void collect_tracked_elems(std::set<const void*>&) {}
+    void collect_tracked_elems(std::set<const void*>& out)
+    {
+        for (int d = 0; d < NSLOT; ++d)
+        {
+            if (!eusable(d)) continue;
+            auto ex = extents(*es[d].e);
+            for (std::size_t k = 0; k < N; ++k)
+                if (LI::tracked[k])
+                    for (std::size_t j = 0; j < ex[k].count; ++j) out.insert(reinterpret_cast<const void*>(ex[k].begin + j * ex[k].tsize));
+        }
+    }
 
     void monitor_lifetimes()
     {
@@ -955,6 +1021,8 @@ class Runner
             // skip the sweep while a moved-from vector exists: its objects are unspecified
             for (int s = 0; s < NSLOT; ++s)
                 if (vs[s].m.alive && vs[s].m.moved_from) return;
+            for (int s = 0; s < NSLOT; ++s)
+                if (es[s].alive && es[s].moved_from) return;
             std::set<const void*> held;
             collect_tracked(held);
             std::size_t in_blocks = 0;
@@ -1040,13 +1108,14 @@ class Runner
     // no_alloc: the op must not touch the allocator.
     void monitor_stability(const std::array<std::size_t, NSLOT>& stable_upto, const std::array<bool, NSLOT>& same_block, bool no_alloc, const char* what)
     {
-        if (no_alloc)
+        if (no_alloc && !constructed_this_op)
             VF_REQUIRE(ledger().n_alloc == pre_alloc && ledger().n_dealloc == pre_dealloc, "hidden_allocation", std::string(what) + " touched the allocator (" + std::to_string(ledger().n_alloc - pre_alloc) + " allocations, " + std::to_string(ledger().n_dealloc - pre_dealloc) + " deallocations)");
         for (int s = 0; s < NSLOT; ++s)
         {
             const Snap& sn = snaps[s];
             if (!sn.alive || !usable(s)) continue;
             Vec& v = *vs[s].v;
+            if (sn.size >= 2 && no_alloc) ++stable_checks;
             if (same_block[s])
             {
                 VF_REQUIRE(v.capacity() == sn.cap, "capacity_changed", std::string(what) + " changed capacity()");
@@ -1098,18 +1167,23 @@ class Runner
             case 11:
             case 12:
                 for (int s = 0; s < NSLOT && !bad(); ++s) monitor_values(s);
+                if (prop == 12)
+                    for (int s = 0; s < NSLOT && !bad(); ++s) monitor_elem_values(s);
                 break;
             case 2:
                 for (int s = 0; s < NSLOT && !bad(); ++s) monitor_bounds(s);
                 break;
             case 3:
                 for (int s = 0; s < NSLOT && !bad(); ++s) monitor_alignment(s);
+                for (int s = 0; s < NSLOT && !bad(); ++s) monitor_elem_layout(s);
                 break;
             case 4:
                 for (int s = 0; s < NSLOT && !bad(); ++s) monitor_layout(s);
+                for (int s = 0; s < NSLOT && !bad(); ++s) monitor_elem_layout(s);
                 break;
             case 5:
                 for (int s = 0; s < NSLOT && !bad(); ++s) monitor_greedy(s);
+                for (int s = 0; s < NSLOT && !bad(); ++s) monitor_elem_layout(s);
                 break;
             case 6: monitor_lifetimes(); break;
             case 7: monitor_ledger(); break;
@@ -1128,6 +1202,7 @@ class Runner
     {
         ++st.ops_executed;
         ++st.kind_hist[op.kind];
+        constructed_this_op = false;
         const bool want_snap = (prop == 10 || prop == 16);
         if (want_snap) take_snaps();
         std::array<std::size_t, NSLOT> upto;
@@ -1212,12 +1287,13 @@ class Runner
         if (!bad()) after_op(op);
     }
 
-    bool step_ext(const Op&) { return false; }
+#include "runner_ext.inc"
 
     void finish()
     {
         // destroy everything, then the end-of-case clauses (after a failure nothing is touched any more)
         if (bad()) return;
+        for (int s = 0; s < NSLOT; ++s) destroy_eslot(s);
         for (int s = 0; s < NSLOT; ++s) destroy_slot(s);
         if (prop == 6)
         {
@@ -1260,6 +1336,10 @@ class Runner
         }
         cur_op = static_cast<int>(prog.ops.size());
         finish();
+        if (prop == 3 && relocations > 0 && LI::ANY_ALIGNED) nt_flag = true;
+        if (prop == 6 && relocations >= 2 && LI::ANY_TRACKED) nt_flag = true;
+        if (prop == 7 && (realloc_on_varying || arenas_used.size() >= 2)) nt_flag = true;
+        if (prop == 16 && stable_checks >= 3 && erase_middle_seen) nt_flag = true;
         if (nt_flag) st.nontrivial = true;
         // release whatever is left so that the next case starts clean
         ledger().reset(0);
@@ -1271,6 +1351,39 @@ class Runner
 template <class Cfg>
 Verdict run_config(int prop, const Program& p, Stats& st, unsigned guards)
 {
+    if (prop == 13 || prop == 14 || prop == 18)
+    {
+        // metamorphic re-run: the same program on memory with different initial contents must behave identically
+        std::vector<int> first;
+        {
+            Runner<Cfg> r(prop, p, st, guards);
+            Verdict v = r.run();
+            if (!v.ok) return v;
+            first = r.outcomes;
+        }
+        Program q = p;
+        q.junk = p.junk ^ 0x5bd1e995u;
+        Stats scratch;
+        Runner<Cfg> r2(prop, q, scratch, guards);
+        Verdict v2 = r2.run();
+        if (!v2.ok)
+        {
+            v2.msg += " (only with the second initial memory pattern)";
+            return v2;
+        }
+        if (r2.outcomes != first)
+        {
+            Verdict v;
+            v.ok = false;
+            char pbuf[8];
+            std::snprintf(pbuf, sizeof pbuf, "C%02d.", prop);
+            v.code = std::string(pbuf) + "depends_on_memory_contents";
+            v.msg = "the same operations on memory with different previous contents gave different comparison results";
+            v.op_index = static_cast<int>(p.ops.size());
+            return v;
+        }
+        return v2;
+    }
     Runner<Cfg> r(prop, p, st, guards);
     return r.run();
 }
